@@ -602,6 +602,21 @@ def kernel_crosscheck(ctx, cases, outs):
     for (a, b), e, g in zip(pats, exp, got):
         if g != e:
             return "PrimFloat/bit-pattern validation differs from NumPy on (%#x, %#x): coq %s numpy %s" % (a, b, g, e), n
+    # the premise of C03_prop_check_b64_sound (float addition of non-negatives is monotone) on random
+    # triples, including neighbours one ulp apart and sums that round: evidence, not proof
+    tri = []
+    for _ in range(150):
+        a = int(rng.randint(0, 2 ** 62)) % 0x7FF0000000000000
+        b = a + int(rng.choice([0, 1, 2, 3, int(rng.randint(0, 2 ** 40))]))
+        c = int(rng.randint(0, 2 ** 62)) % 0x7FF0000000000000
+        if rng.rand() < 0.6:          # comparable magnitudes, so that the addition rounds
+            c = (a & ~((1 << 54) - 1)) | int(rng.randint(0, 2 ** 54))
+        tri.append([a, min(b, 0x7FF0000000000000), min(c, 0x7FF0000000000000)])
+    mono = coq_eval(ctx, "Spec.PropCheck", "entry_mono", tri, "mono")
+    for t3, g in zip(tri, mono):
+        if g != [1, 1]:
+            return "premise b64_add_monotone falsified (or Coq run failed) on %s: %s" % ([hex(x) for x in t3], g), n
+    n += len(tri)
     zi = [k for k, c in enumerate(cases) if _well_formed(c, outs[k]) and _is_exact(c) and c["m"] * c["n"] <= 36][:40]
     if zi:
         args, exps = [], []
